@@ -196,16 +196,20 @@ impl ast::IfStmt {
         }
     }
 
-    pub fn then_branch_block(&self) -> Option<ast::BlockExpr> {
-        match support::children(self.syntax()).nth(1)? {
-            ast::Expr::BlockExpr(block) => Some(block),
-            _ => None,
-        }
+    // The child nodes of an `if` statement are, in order: the condition, the body taken
+    // when the condition is true, and, if present, the `else` body. Each body is either
+    // a block or a single statement, so the branches are selected by position. (Selecting
+    // them by type mixes them up when one body is a block and the other a statement.)
+    fn branch_node(&self, n: usize) -> Option<SyntaxNode> {
+        self.syntax().children().nth(n)
     }
 
-    // Hmm. Not sure why this is not `nth(1)`. (It is equivalent to `nth(0)`.)
+    pub fn then_branch_block(&self) -> Option<ast::BlockExpr> {
+        self.branch_node(1).and_then(ast::BlockExpr::cast)
+    }
+
     pub fn then_branch_stmt(&self) -> Option<ast::Stmt> {
-        support::child(&self.syntax)
+        self.branch_node(1).and_then(ast::Stmt::cast)
     }
 
     // This is the `if` body, corresponding to the condition evaluating true.
@@ -221,15 +225,12 @@ impl ast::IfStmt {
 
     // Return `Some` if the else branch is present and is a curly-delimited block.
     pub fn else_branch_block(&self) -> Option<ast::BlockExpr> {
-        match support::children(self.syntax()).nth(2)? {
-            ast::Expr::BlockExpr(block) => Some(block),
-            _ => None,
-        }
+        self.branch_node(2).and_then(ast::BlockExpr::cast)
     }
 
     // Return `Some` if the else branch is present and is a single statement.
     pub fn else_branch_stmt(&self) -> Option<ast::Stmt> {
-        support::child(&self.syntax)
+        self.branch_node(2).and_then(ast::Stmt::cast)
     }
 
     // This is the `else` body, corresponding to the condition evaluating false.
